@@ -29,10 +29,11 @@ func faultEnum(c *runCtx, kind string, baseOpts map[string]interface{}, baseDept
 		}
 		bases = append(bases, h)
 	}
+	available := len(bases)
 	if maxBase > 0 && len(bases) > maxBase {
 		bases = bases[:maxBase] // BFS order: all shorter histories first
 	}
-	opts := map[string]interface{}{"no_b": baseOpts["no_b"]}
+	opts := map[string]interface{}{"no_b": baseOpts["no_b"], "tasks": baseOpts["import"] == true || baseOpts["remove"] == true || baseOpts["new_addr"] == true}
 	// dry runs: count commits / calls of every base history
 	dry, to, err := runTasks(c.Bin, c.Scratch, "c06", opts, bases, c.Workers, 150, deadline)
 	if err != nil {
@@ -99,19 +100,21 @@ func faultEnum(c *runCtx, kind string, baseOpts map[string]interface{}, baseDept
 		samples = append(samples, tasks[0])
 	}
 	cov := map[string]interface{}{
-		"evaluations":          done,
-		"distinct_nontrivial":  len(outcomes),
-		"samples":              samples,
-		"exhaustive":           !to && !to2 && done == len(tasks),
-		"base_histories":       len(bases),
-		"base_states_explored": bfs.States,
-		"fault_points":         totalPoints,
-		"runs_planned":         len(tasks),
-		"runs_completed":       done,
-		"inconclusive_runs":    inconclusive,
-		"faults_injected":      injected,
-		"crash_not_reached":    notReached,
-		"bounds":               map[string]interface{}{"base_depth": baseDepth, "base_opts": baseOpts, "max_base": maxBase, "repeats": repeats},
+		"evaluations":             done,
+		"distinct_nontrivial":     len(outcomes),
+		"samples":                 samples,
+		"exhaustive":              !to && !to2 && done == len(tasks) && available == len(bases) && bfs.Exhaustive,
+		"base_histories":          len(bases),
+		"base_histories_in_space": available,
+		"base_space_exhaustive":   bfs.Exhaustive,
+		"base_states_explored":    bfs.States,
+		"fault_points":            totalPoints,
+		"runs_planned":            len(tasks),
+		"runs_completed":          done,
+		"inconclusive_runs":       inconclusive,
+		"faults_injected":         injected,
+		"crash_not_reached":       notReached,
+		"bounds":                  map[string]interface{}{"base_depth": baseDepth, "base_opts": baseOpts, "max_base": maxBase, "repeats": repeats},
 	}
 	return cov, viols, nil
 }
@@ -121,21 +124,36 @@ func init() {
 		Level: "fault_enumeration",
 		Run: func(c *runCtx) (map[string]interface{}, []string, []violation, error) {
 			opts := map[string]interface{}{"max_reorg": 2, "max_queue": 2, "max_height": 6, "no_b": true}
-			depth, maxBase, budget := 4, 600, 170*time.Second
+			depth, maxBase, budget := 4, 0, 280*time.Second
 			if c.Tier == "thorough" {
 				opts = map[string]interface{}{"max_reorg": 3, "max_queue": 3, "max_height": 8}
-				depth, maxBase, budget = 5, 8000, 25*time.Minute
+				depth, maxBase, budget = 5, 0, 40*time.Minute
 			}
 			cov, viols, err := faultEnum(c, "crash", opts, depth, maxBase, []int{1}, budget)
 			if err != nil {
 				return nil, nil, nil, err
 			}
+			// second pass: histories with API operations and background steps (import of C,
+			// removal of B with its background run, NewAddress, restart)
+			topts := map[string]interface{}{"import": true, "remove": true, "new_addr": true, "templates": []string{"e", "a2b"}, "c_blocks": []string{"pc0"}, "patterns": []string{"E"}, "max_reorg": 1, "max_queue": 1, "max_height": 5}
+			tdepth, tmax := 5, 0
+			if c.Tier == "thorough" {
+				topts["templates"] = []string{"e", "a2b", "ab"}
+				topts["c_blocks"] = []string{"pc0", "sc"}
+				tdepth, tmax = 6, 0
+			}
+			tcov, tviols, err := faultEnum(c, "crash", topts, tdepth, tmax, []int{1}, budget)
+			if err != nil {
+				return nil, nil, nil, err
+			}
+			mergeFaultCov(cov, tcov, "task_pass")
+			viols = append(viols, tviols...)
 			cov["rule"] = "base histories = shortest history of every state of the C01 space (deliver / 12 block templates / reorgs) up to the base depth; for each, a dry run over the db seam counts the wallet-database commits n, then for EVERY k<n the history is re-run and the process is stopped before commit k (commit not applied, all volatile state dropped, later notifications lost); " +
 				"the wallet is then restarted on the same database through the real start-up path (new manager, NtfnsHandler.Start catch-up, follower + worker goroutines until idle, Stop) and all ledger queries are compared with the reference ledger of the node's final chain; distinct_nontrivial = distinct recovered observations"
 			return cov, []string{
 				"crash model = process stop between wallet-database commits (what C06 states); torn journal writes are goleveldb's contract",
 				"recovery runs with free-running goroutines until idle (20 s limit; a run that does not get idle is counted as inconclusive, never as a violation)",
-				"background import/removal crash points are covered by the C07/C08 checks' own crash events, not here",
+				"second pass (coverage.task_pass): histories with ImportWalletWithMnemonic, single rescan batches, RemoveWallet, the background removal run, NewAddress and restarts; every commit inside them is a crash point; after the crash nobody can call the wallet (later API events of the history are dropped), the restarted wallet resumes the background work by itself",
 			}, viols, nil
 		},
 		Replay: func(c *runCtx, file string) error {
@@ -146,23 +164,48 @@ func init() {
 		Level: "fault_enumeration",
 		Run: func(c *runCtx) (map[string]interface{}, []string, []violation, error) {
 			opts := map[string]interface{}{"max_reorg": 2, "max_queue": 2, "max_height": 6, "no_b": true}
-			depth, maxBase, budget, reps := 3, 60, 170*time.Second, []int{1, 2}
+			depth, maxBase, budget, reps := 3, 0, 280*time.Second, []int{1, 2}
 			if c.Tier == "thorough" {
-				depth, maxBase, budget, reps = 4, 600, 25*time.Minute, []int{1, 2, 3}
+				depth, maxBase, budget, reps = 4, 0, 40*time.Minute, []int{1, 2, 3}
 			}
 			cov, viols, err := faultEnum(c, "fail", opts, depth, maxBase, reps, budget)
 			if err != nil {
 				return nil, nil, nil, err
 			}
+			// second pass: API operations and background steps as fault targets
+			topts := map[string]interface{}{"import": true, "remove": true, "new_addr": true, "templates": []string{"e", "a2b"}, "c_blocks": []string{"pc0"}, "patterns": []string{"E"}, "max_reorg": 1, "max_queue": 1, "max_height": 5}
+			tdepth, tmax := 4, 0
+			if c.Tier == "thorough" {
+				tdepth, tmax = 5, 0
+			}
+			tcov, tviols, err := faultEnum(c, "fail", topts, tdepth, tmax, reps, budget)
+			if err != nil {
+				return nil, nil, nil, err
+			}
+			mergeFaultCov(cov, tcov, "task_pass")
+			viols = append(viols, tviols...)
 			cov["rule"] = "base histories = shortest history of every state of the C01 space up to the base depth; a dry run over the db seam counts the fallible wallet-database calls c (BeginTx, BeginReadTx, Get, GetByPrefix, Put, Delete, Clear, NewBucket, DeleteBucket, iterator, Commit); for EVERY call index i<c and every repeat count the history is re-run with those calls returning an error; " +
 				"afterwards storage works again, queued notifications are delivered, the node announces one more tip, and all ledger queries are compared with the reference ledger; distinct_nontrivial = distinct final observations"
 			return cov, []string{
-				"only follower operations (connect, reorg, catch-up through the next tip) are covered by this pass; API operations (create/import/new address/remove) are covered by the C18 part of the C04/C08 spaces when built",
+				"second pass (coverage.task_pass): ImportWalletWithMnemonic, one rescan batch, RemoveWallet, the background removal run, NewAddress and restart as fault targets; an operation that reports failure under the fault is repeated once storage works again (the worker's own re-queueing of a failed removal is modelled by repeating the run); CreateWallet is not a fault target here",
 				"an injected iterator failure yields an empty iteration whose Error() returns the injected error",
 			}, viols, nil
 		},
 		Replay: func(c *runCtx, file string) error {
 			return replayBFS(c, "c06", file, func(t string) interface{} { return map[string]interface{}{} })
 		},
+	}
+}
+
+// mergeFaultCov folds a second pass into the coverage of the first one.
+func mergeFaultCov(cov, t map[string]interface{}, name string) {
+	cov[name] = t
+	for _, k := range []string{"evaluations", "distinct_nontrivial", "fault_points", "runs_planned", "runs_completed", "inconclusive_runs", "faults_injected"} {
+		a, _ := cov[k].(int)
+		b, _ := t[k].(int)
+		cov[k] = a + b
+	}
+	if e, _ := t["exhaustive"].(bool); !e {
+		cov["exhaustive"] = false
 	}
 }
